@@ -228,7 +228,7 @@ class C20(Prop):
     ID = 'C20'
     CORRESPONDENCE = 'PlaybackModel.FileIntercept (prepare/cassetteRT/restoreInput/restoreOutput) vs a full trip through TapeRecorder + cassette'
     RULE = ('full record -> cassette -> replay trips (in-memory, file based, S3 on the boto3 stand-in) with structured '
-            'contents (empty, all 256 byte values, CR/LF mixes, the placeholder text, limit-1/limit/limit+1 bytes, files of tens / hundreds of KB and of more than 1 MB within the limit, random '
+            'contents (empty, all 256 byte values, CR/LF mixes, the placeholder text, limit-1/limit/limit+1 bytes, files of tens / hundreds of KB and of more than 1 MB within the limit, contents that are themselves zlib / gzip / base64 payloads, random '
             'binary), path positional/keyword/decoy/falsy keyword, limit explicit/environment/default, plus unit cases '
             'for path selection and the size rule; a case is non-trivial when a file was recorded (trip) or a size was '
             'classified (limit) or a path selected (path); distinct = distinct canonical case')
